@@ -560,9 +560,9 @@ def tasks(tier):
     for n, nv in ([((3,), 1), ((2, 2), 2), ((2, 1, 2), 1)] if q else [((4,), 1), ((3,), 2), ((3, 2), 2), ((2, 3), 1), ((2, 2, 2), 3), ((2, 1, 2, 1), 1)]):
         t.append(dict(harness="h_sample", cfg=dict(n=list(n), nvdim=nv), limits=dict(max_paths=20000, wall_budget=900)))
     # lines
-    for n, nv, pts in ([((2,), 1, 3), ((2, 2), 2, 2), ((2, 1), 3, 3)] if q else [((3,), 1, 4), ((2,), 2, 5), ((2, 2), 2, 3), ((2, 1, 2), 3, 2), ((3, 2), 1, 3)]):
+    for n, nv, pts in ([((2,), 1, 3), ((2, 2), 2, 2), ((2, 1), 3, 3)] if q else [((3,), 1, 4), ((2,), 2, 5), ((2, 2), 2, 3), ((2, 1, 2), 3, 2), ((3, 2), 1, 2)]):
         t.append(dict(harness="h_line", cfg=dict(n=list(n), nvdim=nv, points=pts, labels="custom" if nv > 1 and pts % 2 else "default"),
-                      limits=dict(max_paths=20000, wall_budget=900)))
+                      limits=dict(max_paths=20000, wall_budget=900 if q else 3300)))
         t.append(dict(harness="h_line", cfg=dict(n=list(n), nvdim=nv, points=pts, outside=len(n))))
     # source fields (concrete, pairwise non-commensurate geometry; symbolic values)
     ff = [
